@@ -144,9 +144,10 @@ def run_task(args):
     """Worker: explore a slice of one (harness, cfg); replay findings; re-validate path models."""
     prop, hname, cfg, prefixes, budget_paths, budget_s, validate_cap = args[:7]
     second = args[7] if len(args) > 7 else 0
+    reverse = args[8] if len(args) > 8 else False
     from . import sym
 
-    out = dict(harness=hname, cfg=cfg, stats={}, left=[], confirmed=[], nonrepro=[], errors=[], witness=[], samples=[],
+    out = dict(harness=hname, cfg=cfg, reverse=reverse, stats={}, left=[], confirmed=[], nonrepro=[], errors=[], witness=[], samples=[],
                functions=[], validated=0, mismatches=[], npaths_nontrivial=0, unknowns=[], second=0)
     try:
         _, hs = load(prop)
@@ -154,6 +155,7 @@ def run_task(args):
         known = [k for k in known_findings() if k.get("status") == "known" and k.get("harness") == hname]
         ex = sym.Explorer(timeout_ms=h.timeout_ms, concretize_cap=h.cap, known=known)
         ex.second_budget = second
+        ex.reverse = reverse
         tracer = FnTracer() if not prefixes or prefixes == [[]] else None
         try:
             out["left"] = ex.run(_with_cfg(h.fn), cfg, prefixes, budget_paths, budget_s, tracer)
@@ -192,7 +194,7 @@ def run_task(args):
         sym_failed = {}
         for f in ex.findings:
             sym_failed.setdefault(f.label, 0)
-        if h.validate:
+        if h.validate and not reverse:
             for i, (assignment, observed) in enumerate(ex.path_models):
                 if i >= validate_cap:
                     break
@@ -256,9 +258,14 @@ def main(argv):
     slice_paths, slice_s = (60, 10) if tier == "quick" else (150, 30)
     validate_cap = 10**9 if tier == "thorough" else 400
     tasks = []
+    do_reverse = tier == "thorough" and os.environ.get("VERIF_REVERSE", "1") != "0"
     for name, h in sorted(hs.items()):
         for cfg in (h.quick if tier == "quick" else h.thorough):
-            tasks.append((prop, name, cfg, [[]], slice_paths, slice_s, validate_cap, 3 if tier == "thorough" else 0))
+            tasks.append((prop, name, cfg, [[]], slice_paths, slice_s, validate_cap, 3 if tier == "thorough" else 0, False))
+            if do_reverse and not name.endswith((".threads", ".race")) and name not in meta.get("no_reverse", ()):
+                # the same exploration with the other side of every branch first: a verdict that depends on the order in which paths
+                # run means state leaks from one path into the next
+                tasks.append((prop, name, cfg, [[]], slice_paths, slice_s, 0, 0, True))
     agg = dict(stats={}, unknowns=[], confirmed=[], nonrepro=[], errors=[], witness={}, samples=[], functions=set(), validated=0, mismatches=[],
                tasks=0, configs=len(tasks), nontrivial=0)
     ctxmp = multiprocessing.get_context("fork")
@@ -279,6 +286,21 @@ def main(argv):
                 progressed = True
                 o = unjson(r.get())
                 agg["tasks"] += 1
+                if o.get("reverse"):
+                    key = (o["harness"], json.dumps(jsonable(o["cfg"]), sort_keys=True))
+                    rv = agg.setdefault("rev", {}).setdefault(key, dict(paths=0, labels=set()))
+                    rv["paths"] += o["stats"].get("paths", 0)
+                    rv["labels"].update(r_["label"] for r_ in o["confirmed"])
+                    agg["errors"].extend(o["errors"])
+                    left = o["left"]
+                    chunk = max(1, len(left) // (2 * jobs) + 1)
+                    for i in range(0, len(left), chunk):
+                        still.append(pool.apply_async(run_task, ((prop, o["harness"], o["cfg"], left[i:i + chunk], slice_paths, slice_s, 0, 0, True),)))
+                    continue
+                key = (o["harness"], json.dumps(jsonable(o["cfg"]), sort_keys=True))
+                fw = agg.setdefault("fwd", {}).setdefault(key, dict(paths=0, labels=set()))
+                fw["paths"] += o["stats"].get("paths", 0)
+                fw["labels"].update(r_["label"] for r_ in o["confirmed"])
                 for k, v in o["stats"].items():
                     agg["stats"][k] = agg["stats"].get(k, 0) + v
                 for k in ("confirmed", "nonrepro", "errors", "mismatches", "unknowns"):
@@ -295,7 +317,7 @@ def main(argv):
                 # split leftover subtrees into new tasks
                 chunk = max(1, len(left) // (2 * jobs) + 1)
                 for i in range(0, len(left), chunk):
-                    still.append(pool.apply_async(run_task, ((prop, o["harness"], o["cfg"], left[i:i + chunk], slice_paths, slice_s, validate_cap),)))
+                    still.append(pool.apply_async(run_task, ((prop, o["harness"], o["cfg"], left[i:i + chunk], slice_paths, slice_s, validate_cap, 0, False),)))
             pending = still
             if not progressed:
                 time.sleep(0.02)
@@ -348,6 +370,14 @@ def report(prop, tier, seed, mod, hs, agg, wall, timed_out):
         problems.append(f"HARNESS-ERROR engine disagreement: {json.dumps(jsonable(m))[:600]}")
     for n in missing_labels:
         problems.append(f"HARNESS-ERROR no obligation of {n} was reached on any feasible path (vacuous)")
+    nrev = 0
+    if not timed_out:
+        for key, rv in agg.get("rev", {}).items():
+            fw = agg.get("fwd", {}).get(key, dict(paths=0, labels=set()))
+            nrev += 1
+            if rv["paths"] != fw["paths"] or rv["labels"] != fw["labels"]:
+                problems.append(f"HARNESS-ERROR exploration order changes the verdict (state leaking between paths?): {key[0]} {key[1]}: forward {fw['paths']} paths {sorted(fw['labels'])}, reversed {rv['paths']} paths {sorted(rv['labels'])}")
+    agg["reversed_configs"] = nrev
     required = set() if os.environ.get("VERIF_ONLY") else set(meta.get("labels", []))
     reached = set().union(*agg["witness"].values()) if agg["witness"] else set()
     for lab in sorted(required - reached):
@@ -375,7 +405,7 @@ def report(prop, tier, seed, mod, hs, agg, wall, timed_out):
             extra=meta.get("extra", {}),
             stubs=meta.get("stubs", []),
             solver="z3 " + _z3v(), exhaustive=exhaustive, second_solver_checked=agg.get("second", 0),
-            known_findings_seen=sorted(known_hits), violations_found=len(vio_paths),
+            known_findings_seen=sorted(known_hits), violations_found=len(vio_paths), configurations_rerun_in_reversed_path_order=agg.get("reversed_configs", 0),
             explanation="bounded symbolic execution of the real psutil code (proxy values, z3 decides every data-dependent branch "
                         "and every obligation); exhaustive=true means every feasible path within the stated bounds was completed "
                         "with no truncation and no solver unknown"),
